@@ -6,14 +6,19 @@ import RaptorModel.Model.Krylov
 The loop is a fuel-recursive copy of the C++ loop, same update order:
 
 ```
-b_inner = (b, prec b); tol' = tol * sqrt(b_inner) if sqrt(b_inner) > zero_tol
-r = b - A x; z = prec r; p = z; rz = (r, z); res = [rz / b_inner]
+b_inner = (b, prec b); if sqrt(b_inner) > 0: tol' = tol * sqrt(b_inner), scale = b_inner  else: tol' = tol, scale = 1
+r = b - A x; z = prec r; p = z; rz = (r, z); res = [rz / scale]
+if (!(sqrt(rz) > tol')) return                         -- the start already meets the tolerance (fix recorded for C17)
 while (iter < max_iter) {
   iter++; Ap = A p; alpha = rz / (Ap, p); x += alpha p
   full = (iter % 8 == 0); r = full ? b - A x : r - alpha Ap
-  z = prec r; next = (r, z); beta = next / rz; res.push(next / b_inner)
-  if (next < tol') break
+  z = prec r; next = (r, z); beta = next / rz; res.push(next / scale)
+  if (sqrt(next) < tol') break                         -- both sides in the unsquared M-norm (was: next < tol')
   p = full ? z : z + beta p; rz = next }
+```
+In the model the comparison is made on the squares: `step` tests `next < thr` with `thr = tol'^2`, and `bInner` stands for
+`scale`.
+```
 ```
 -/
 namespace Raptor.Pcg
@@ -57,16 +62,17 @@ def loop [Add K] [Sub K] [Mul K] [Div K] [Neg K] [Zero K] [LT K] [DecidableLT K]
     if s.stopped || !(s.iter < maxIter) then s
     else loop mv resid prec bInner tol recompute maxIter fuel (step mv resid prec bInner tol recompute s)
 
-/-- `PCG(A, ml, x, b, res, tol, max_iter)`; `sqrtB = sqrt((b, prec b))`, `bigB` = "that norm exceeds zero_tol" -/
+/-- `PCG(A, ml, x, b, res, tol, max_iter)`; `sqrtB = sqrt((b, prec b))`, `bigB` = "that norm is positive" (b ≠ 0) -/
 def pcg [Add K] [Sub K] [Mul K] [Div K] [Neg K] [Zero K] [One K] [LT K] [DecidableLT K]
     (mv : List K → List K) (resid : List K → List K) (prec : List K → List K) (b : List K) (sqrtB : K) (bigB : Bool)
     (tol : K) (recompute maxIter : Nat) (x0 : List K) : St K :=
-  let bInner := dot b (prec b)
+  let scale := if bigB then dot b (prec b) else 1
   let tol' := if bigB then tol * sqrtB else tol
+  let thr := tol' * tol'
   let r := resid x0
   let z := prec r
   let rz := dot r z
-  loop mv resid prec bInner tol' recompute maxIter maxIter
-    { x := x0, r := r, p := z, rz := rz, res := [rz / bInner], iter := 0 }
+  loop mv resid prec scale thr recompute maxIter maxIter
+    { x := x0, r := r, p := z, rz := rz, res := [rz / scale], iter := 0, stopped := !(thr < rz) }
 
 end Raptor.Pcg
